@@ -150,6 +150,30 @@ inline std::vector<Case> all_cases(bool thorough)
                         c.prog = { stmt(sev, false, 'B', ta, 1), stmt(sev, true, 'B', tb, 2) };
                         cs.push_back(c);
                     }
+        // (vi) sizes: statements with many items (every kind several times), programs of many statements
+        for (int nitems : { 17, 40, 130 })
+            for (int sev : { 0, 3, 5 })
+                for (char form : { 'A', 'B', 'C' })
+                {
+                    std::vector<int> items;
+                    for (int i = 0; i < nitems; i++)
+                        items.push_back((i * 5 + sev) % I_KINDS);
+                    Case c;
+                    c.expr = 0;
+                    c.t[0] = 2;
+                    c.prog = { stmt(sev, sev == 3, form, items, 1) };
+                    cs.push_back(c);
+                }
+        for (int nst : { 40, 300 })
+            for (int e : { 0, 15 })
+            {
+                Case c;
+                c.expr = e;
+                c.t[0] = 3;
+                for (int i = 0; i < nst; i++)
+                    c.prog.push_back(stmt((i * 7) % 6, i % 3 == 0, "ABC"[i % 3], { I_LIT, (i % 2 ? I_CALLA : I_CALLB), i % I_KINDS }, i + 1));
+                cs.push_back(c);
+            }
         // (v) two named streams with non-nested lifetimes and a whole statement in between
         for (int e : { 0, 12, 14 })
             for (int sev : { 1, 3, 5 })
